@@ -11,7 +11,11 @@ KEYS = [
     "TITLE", "title", "Artist", "SUBTITLE", "VERSION", "version", "Version", "NOTES", "notes", "Notes", "NOTEDATA",
     "notedata", "NoteData", "ATTACKS", "attacks", "DISPLAYBPM", "displaybpm", "DisplayBPM", "BPMS", "bpms", "NOTES2",
     "notes2", "STEPSTYPE", "stepstype", "CREDIT", "OFFSET", "FOO", "foo", "", " A", "B ", "K\\:1", "é", "straße",
+    # keys written with a backslash escape inside or in front of them: the tokenizer's unescaped key is what counts
+    "VER\\SION", "\\version", "NOTE\\S", "NOTE\\DATA", "TI\\TLE",
 ]
+# whitespace other than blank/tab/CR/LF that str.strip() removes as well ("whitespace-trimmed" chart fields)
+RARE_WS = ["\u3000", "\xa0", "\x0b", "\x0c", "\x1c", "\x1f", "\u2028", "\x85", "\u2003"]
 ATOMS = list("ab01 ") + ["\n", "\n", "\r\n", ",", "=", ".", "\\:", "\\;", "\\\\", "\\#", "\\/", "//c #x:y;\n", "/", "#", "é", "ミ", "  ", "\t"]
 comp = st.lists(st.sampled_from(ATOMS), max_size=6).map("".join)
 notes_comp = st.sampled_from(["0000\n0000\n0000\n0000\n", "\n1000\n0100\n,\n0010\n0001\n", "", " 1 ", "0"])
@@ -30,6 +34,10 @@ def param_segment(draw, keys=KEYS, force_key=None):
             comps.append(draw(notes_comp))
         else:
             comps.append(draw(comp))
+        if draw(st.integers(0, 7)) == 0:
+            ws = draw(st.sampled_from(RARE_WS))
+            side = draw(st.integers(0, 2))
+            comps[-1] = (ws if side != 1 else "") + comps[-1] + (ws if side != 0 else "")
     body = "#" + ":".join([k] + comps)
     term = draw(st.sampled_from(TERMS))
     return ["param", body + term], term.startswith(";")
@@ -67,7 +75,7 @@ def documents(draw, max_params=8, chart_doc=False):
         if first and chart_doc:
             force = draw(st.sampled_from(["NOTEDATA", "NOTEDATA", "notedata", "NoteData"]))
         elif first and draw(st.integers(0, 3)) == 0:
-            force = draw(st.sampled_from(["VERSION", "version", "Version"]))
+            force = draw(st.sampled_from(["VERSION", "version", "Version", "VER\\SION", "\\Version", "versio\\n"]))
         seg, terminated = draw(param_segment(force_key=force))
         if first and bom:
             segs.append(["bom", "﻿"])
